@@ -442,18 +442,31 @@ func runIter(f []string) string {
 		rounds, _ = strconv.Atoi(f[4])
 	}
 	startups := startupRounds(rounds)
-	// rows through the real path evaluation
-	rowsData := make([]map[string]string, ln)
-	for i := range rowsData {
-		rowsData[i] = map[string]string{"id": strconv.Itoa(i)}
+	// rows through the real path evaluation: three lists, all called `users`, under different
+	// parents (lengths ln, ln+1, ln+2); goroutine t uses list (j+t) mod 3 in its j-th evaluation
+	mkRows := func(n int, tag string) []map[string]string {
+		out := make([]map[string]string, n)
+		for i := range out {
+			out[i] = map[string]string{"id": tag + strconv.Itoa(i)}
+		}
+		return out
 	}
-	tree := map[string]any{"source": map[string]any{"users": rowsData}}
+	tags := []string{"p", "e", "u"}
+	paths := []string{"source.users[next].id", "source.eu.users[next].id", "source.us.users[next].id"}
+	tree := map[string]any{"source": map[string]any{
+		"users": mkRows(ln, tags[0]),
+		"eu":    map[string]any{"users": mkRows(ln+1, tags[1])},
+		"us":    map[string]any{"users": mkRows(ln+2, tags[2])},
+	}}
 	it2 := mp.NewNextIterator(1)
-	counts := make([]int64, ln)
+	counts := make([][]int64, len(paths))
+	for p := range counts {
+		counts[p] = make([]int64, ln+p)
+	}
 	var errs int64
 	for t := 0; t < g; t++ {
 		wg.Add(1)
-		go func() {
+		go func(t int) {
 			defer wg.Done()
 			defer func() {
 				if r := recover(); r != nil {
@@ -461,22 +474,32 @@ func runIter(f []string) string {
 				}
 			}()
 			for j := 0; j < per; j++ {
-				v, err := mp.GetMapValue(tree, "source.users[next].id", it2)
+				p := (j + t) % len(paths)
+				v, err := mp.GetMapValue(tree, paths[p], it2)
 				if err != nil {
 					atomic.AddInt64(&errs, 1)
 					continue
 				}
-				i, _ := strconv.Atoi(v.(string))
-				atomic.AddInt64(&counts[i], 1)
+				id, _ := v.(string)
+				i, aerr := strconv.Atoi(strings.TrimPrefix(id, tags[p]))
+				if aerr != nil || !strings.HasPrefix(id, tags[p]) || i < 0 || i >= len(counts[p]) {
+					atomic.AddInt64(&errs, 1) // an element of another list
+					continue
+				}
+				atomic.AddInt64(&counts[p][i], 1)
 			}
-		}()
+		}(t)
 	}
 	wg.Wait()
 	var cs []string
-	for _, c := range counts {
-		cs = append(cs, strconv.FormatInt(c, 10))
+	for p := range counts {
+		var one []string
+		for _, c := range counts[p] {
+			one = append(one, strconv.FormatInt(c, 10))
+		}
+		cs = append(cs, strings.Join(one, ","))
 	}
-	return fmt.Sprintf("%s %s startups=%s errs=%d rows=%s", vh.B(exact), vh.B(mono), vh.B(startups), errs, strings.Join(cs, ","))
+	return fmt.Sprintf("%s %s startups=%s errs=%d rows=%s", vh.B(exact), vh.B(mono), vh.B(startups), errs, strings.Join(cs, ";"))
 }
 
 // startupRounds: `rounds` start-ups per arena. In every round a FRESH NextIterator is published and
